@@ -20,10 +20,15 @@
    prefix of a call / index / field / method suffix.
 
    g_no_paren_suffix g : the condition on the DERIVATION that expresses finding C09-paren-suffix-assert:
-   no call / index / field / method suffix is applied to a parenthesised expression. *)
+   no call / index / field / method suffix is applied to a parenthesised expression.
+
+   The flag nts switches on a further pair: with nts = true, CTX also carries g_no_trailing_sep g (no table constructor
+   of the derivation ends in a field separator) and dom also says AstWriterDepth.no_trailing_sep t (the exclusion of
+   C10_indent / C10_output_form / C10_idempotent); with nts = false both are absent. *)
 From PV Require Import Base.Prelude Base.PySlice Spec.LuaTokens Spec.LuaGrammar Model.Tokens Model.Parser Model.ParserInst
   Model.AstWriter Model.WriterDomain Proofs.ParserProofs Proofs.ParserSpecs Proofs.ParserTheorems
   Proofs.ParserComplete1 Proofs.ParserComplete2.
+From PV Require Proofs.AstWriterDepth.
 From Coq Require Import ZifyBool.
 Ltac Zify.zify_post_hook ::= Z.to_euclidean_division_equations.
 
@@ -39,11 +44,33 @@ Fixpoint g_no_paren_suffix (g : tree) : bool :=
   | _ => true
   end.
 
+(* no table constructor ends in a field separator: field {sep field} has an odd number of entries *)
+Fixpoint g_no_trailing_sep (g : tree) : bool :=
+  match g with
+  | Node tag _ _ _ fs =>
+      (if tag =? tTableConstructor
+       then match fs with [_; Lst l; _] => negb (Nat.even (length l)) || Nat.eqb (length l) 0 | _ => true end
+       else true) && forallb g_no_trailing_sep fs
+  | Lst l => forallb g_no_trailing_sep l
+  | Paren _ _ x => g_no_trailing_sep x
+  | Hid x => g_no_trailing_sep x
+  | _ => true
+  end.
+
+Lemma gnts_table_tail a b sh o f r c :
+  g_no_trailing_sep (Node tTableConstructor a b sh [o; Lst (f :: r); c]) = true -> Nat.even (length r) = true.
+Proof.
+  cbn [g_no_trailing_sep]. change (tTableConstructor =? tTableConstructor) with true. cbv iota. cbn [length].
+  intros H. apply andb_true_iff in H. destruct H as [H _]. rewrite Nat.even_succ in H. unfold Nat.odd in H.
+  destruct (Nat.even (length r)); [reflexivity | discriminate H].
+Qed.
+
 Lemma forallb_In {A} (f : A -> bool) l x : forallb f l = true -> In x l -> f x = true.
 Proof. intros H Hin. rewrite forallb_forall in H. apply H, Hin. Qed.
 
 Section Dom.
 Variable ts : list token.
+Variable nts : bool.
 
 (* ------------------------------------------------------------------ the domain conditions, node by node *)
 Definition loc_strict (tag : Z) (sh : bool) (fs : list tree) : bool :=
@@ -72,26 +99,44 @@ Definition loc_ifdo (tag : Z) (sh : bool) (fs : list tree) : bool :=
 Definition loc_paren (tag : Z) (fs : list tree) : bool :=
   if is_suffix_tag tag then match fs with x :: _ => negb (is_paren x) | [] => true end else true.
 
+Definition last_hid (l : list tree) : bool := match l with [] => false | _ => is_hid (last l PNone) end.
+
+Lemma last_hid_cons2 a f tl : is_hidden f = false -> last_hid tl = false -> last_hid (a :: f :: tl) = false.
+Proof.
+  intros Hf Ht. unfold last_hid. change (last (a :: f :: tl) PNone) with (last (f :: tl) PNone).
+  destruct tl as [|x r]; [cbn [last]; destruct f; try discriminate Hf; reflexivity|].
+  change (last (f :: x :: r) PNone) with (last (x :: r) PNone). exact Ht.
+Qed.
+
+Definition loc_nts (tag : Z) (fs : list tree) : bool :=
+  if tag =? tTableConstructor then
+    match fs with [_; Lst l; _] => match l with _ :: r => negb (last_hid r) | [] => true end | _ => true end
+  else true.
+
 Definition loc (tag : Z) (sh : bool) (fs : list tree) : bool :=
-  loc_strict tag sh fs && loc_ifdo tag sh fs && loc_paren tag fs.
+  loc_strict tag sh fs && loc_ifdo tag sh fs && loc_paren tag fs && (loc_nts tag fs || negb nts).
 
 (* loc at the node classes where it is not trivially true *)
 Lemma fields_strict_cons f l : is_hidden f = false -> fields_strict (f :: l) = fields_strict l.
 Proof. destruct f; intros H; try discriminate H; reflexivity. Qed.
 
-Lemma loc_table a l c : fields_strict l = true -> loc tTableConstructor false [a; Lst l; c] = true.
+Lemma loc_table a l c : fields_strict l = true -> (nts = true -> match l with _ :: r => last_hid r = false | [] => True end) ->
+  loc tTableConstructor false [a; Lst l; c] = true.
 Proof.
-  intros H. change (loc tTableConstructor false [a; Lst l; c]) with (fields_strict l && true && true). rewrite H. reflexivity.
+  intros H Hn.
+  change (loc tTableConstructor false [a; Lst l; c])
+    with (fields_strict l && true && true && (match l with _ :: r => negb (last_hid r) | [] => true end || negb nts)).
+  rewrite H. cbn [andb]. destruct nts; [|apply orb_true_r]. specialize (Hn eq_refl). destruct l; [reflexivity|]. rewrite Hn. reflexivity.
 Qed.
 
 Lemma loc_expvalue fs : existsb is_hid fs = false -> loc tExpValue false fs = true.
 Proof.
-  intros H. change (loc tExpValue false fs) with (negb (existsb is_hid fs) && true && true). rewrite H. reflexivity.
+  intros H. change (loc tExpValue false fs) with (negb (existsb is_hid fs) && true && true && true). rewrite H. reflexivity.
 Qed.
 
 Lemma loc_unop fs : existsb is_hid fs = false -> loc tExpUnOp false fs = true.
 Proof.
-  intros H. change (loc tExpUnOp false fs) with (negb (existsb is_hid fs) && true && true). rewrite H. reflexivity.
+  intros H. change (loc tExpUnOp false fs) with (negb (existsb is_hid fs) && true && true && true). rewrite H. reflexivity.
 Qed.
 
 Lemma not_hidden_not_hid x : is_hidden x = false -> is_hid x = false.
@@ -114,14 +159,14 @@ Lemma loc_if_long a c ti b rest e : is_none c = false -> forallb pair_has_cond r
 Proof.
   intros H1 H2 H3.
   change (loc tStatIf false [a; Lst (Lst [c; Kw ti; b] :: rest); e])
-    with (negb (is_none c) && forallb pair_has_cond rest && tok_is ts (is_kw "then"%bs) ti && true).
+    with (negb (is_none c) && forallb pair_has_cond rest && tok_is ts (is_kw "then"%bs) ti && true && true).
   rewrite H1, H2, H3. reflexivity.
 Qed.
 
 Lemma loc_if_short a i j x b ep : forallb pair_has_cond ep = true ->
   loc tStatIf true [a; Lst (Lst [Paren i j x; b] :: ep)] = true.
 Proof.
-  intros H. change (loc tStatIf true [a; Lst (Lst [Paren i j x; b] :: ep)]) with (forallb pair_has_cond ep && true && true).
+  intros H. change (loc tStatIf true [a; Lst (Lst [Paren i j x; b] :: ep)]) with (forallb pair_has_cond ep && true && true && true).
   rewrite H. reflexivity.
 Qed.
 
@@ -138,6 +183,7 @@ Lemma dom_writable t : dom t = true -> strict t = true /\ no_if_do ts t = true /
 Proof.
   induction t as [tag s e sh fs IH| | l IH| | | | |i j x IH|x IH] using tree_ind'; intros H; try (repeat split; reflexivity).
   - cbn [dom] in H. apply andb_true_iff in H. destruct H as [Hl Hf]. unfold loc in Hl.
+    apply andb_true_iff in Hl. destruct Hl as [Hl _].
     apply andb_true_iff in Hl. destruct Hl as [Hl H3]. apply andb_true_iff in Hl. destruct Hl as [H1 H2].
     assert (Hall : forallb strict fs = true /\ forallb (no_if_do ts) fs = true /\ forallb no_paren_prefix fs = true).
     { clear -IH Hf. induction IH as [|x r Hx _ IH2]; [repeat split; reflexivity|]. cbn [forallb] in *.
@@ -151,6 +197,31 @@ Proof.
     rewrite B1, B2, B3, C1, C2, C3. repeat split; reflexivity.
   - cbn [dom] in H. cbn [strict no_if_do no_paren_prefix]. apply IH, H.
   - cbn [dom] in H. cbn [strict no_if_do no_paren_prefix]. apply IH, H.
+Qed.
+
+Lemma loc_nts_spec tag fs : loc_nts tag fs = true ->
+  (if tag =? tTableConstructor then
+     match fs with [_; Lst l; _] => match l with _ :: _ :: _ => negb (is_hid (last l PNone)) | _ => true end | _ => true end
+   else true) = true.
+Proof.
+  unfold loc_nts. destruct (tag =? tTableConstructor); [|reflexivity].
+  destruct fs as [|a [|[| |l| | | | | |] [|c [|? ?]]]]; try reflexivity.
+  destruct l as [|x [|y r]]; try reflexivity. intros H. exact H.
+Qed.
+
+Lemma dom_nts t : nts = true -> dom t = true -> AstWriterDepth.no_trailing_sep t = true.
+Proof.
+  intros Hn. induction t as [tag s e sh fs IH| | l IH| | | | |i j x IH|x IH] using tree_ind'; intros H; try reflexivity.
+  - cbn [dom] in H. apply andb_true_iff in H. destruct H as [Hl Hf]. unfold loc in Hl.
+    apply andb_true_iff in Hl. destruct Hl as [_ Hl]. rewrite Hn in Hl. cbn [negb] in Hl. rewrite orb_false_r in Hl.
+    cbn [AstWriterDepth.no_trailing_sep]. rewrite (loc_nts_spec _ _ Hl). cbn [andb].
+    clear -IH Hf. induction IH as [|x r Hx _ IH2]; [reflexivity|]. cbn [forallb] in *.
+    apply andb_true_iff in Hf. destruct Hf as [A1 A2]. rewrite (Hx A1), (IH2 A2). reflexivity.
+  - cbn [dom] in H. cbn [AstWriterDepth.no_trailing_sep].
+    induction IH as [|x r Hx _ IH2]; [reflexivity|]. cbn [forallb] in *.
+    apply andb_true_iff in H. destruct H as [A1 A2]. rewrite (Hx A1), (IH2 A2). reflexivity.
+  - cbn [dom] in H. cbn [AstWriterDepth.no_trailing_sep]. apply IH, H.
+  - cbn [dom] in H. cbn [AstWriterDepth.no_trailing_sep]. apply IH, H.
 Qed.
 
 (* a list of keyword leaves *)
@@ -235,21 +306,49 @@ Proof.
 Qed.
 
 (* ------------------------------------------------------------------ the context of a sub-derivation *)
+Definition gcond (g : tree) : bool := g_no_paren_suffix g && (g_no_trailing_sep g || negb nts).
+
+Lemma gcond_fields l : g_no_paren_suffix (Lst l) && (g_no_trailing_sep (Lst l) || negb nts) = true -> forallb gcond l = true.
+Proof.
+  cbn [g_no_paren_suffix g_no_trailing_sep]. intros H. apply andb_true_iff in H. destruct H as [H1 H2].
+  apply forallb_forall. intros x Hx. unfold gcond. rewrite (forallb_In _ _ _ H1 Hx). cbn [andb].
+  destruct nts; [|apply orb_true_r]. rewrite orb_false_r in *. exact (forallb_In _ _ _ H2 Hx).
+Qed.
+
+Lemma gcond_node tag a b sh fs : gcond (Node tag a b sh fs) = true -> forallb gcond fs = true.
+Proof.
+  unfold gcond at 1. cbn [g_no_paren_suffix g_no_trailing_sep]. intros H. apply gcond_fields. cbn [g_no_paren_suffix g_no_trailing_sep].
+  apply andb_true_iff in H. destruct H as [H1 H2]. apply andb_true_iff in H1. destruct H1 as [_ H1]. rewrite H1. cbn [andb].
+  destruct nts; [|apply orb_true_r]. rewrite orb_false_r in *. apply andb_true_iff in H2. apply H2.
+Qed.
+
+Lemma gcond_expvalue a b sh x : gcond x = true -> gcond (Node tExpValue a b sh [x]) = true.
+Proof.
+  unfold gcond. cbn [g_no_paren_suffix g_no_trailing_sep forallb]. change (is_suffix_tag tExpValue) with false.
+  change (tExpValue =? tTableConstructor) with false. cbv iota. rewrite !andb_true_r. cbn [andb]. intros H; exact H.
+Qed.
+
 Definition CTX (g : tree) (mx : option Z) : Prop :=
-  in_frag g && g_no_paren_suffix g = true /\ tokdata_ok ts g = true /\ (forall x, In x (short_ifs g) -> LS ts x = true) /\
+  in_frag g && gcond g = true /\ tokdata_ok ts g = true /\ (forall x, In x (short_ifs g) -> LS ts x = true) /\
   (forall j, In j (leaves g) -> fence_ok mx j = true).
 
 Definition CTXL (l : list tree) (mx : option Z) : Prop := Forall (fun c => CTX c mx) l.
 
 Lemma CTX_old g mx : CTX g mx -> ParserComplete2.CTX ts g mx.
 Proof. intros (H1 & H2 & H3 & H4). apply andb_true_iff in H1. destruct H1 as [H1 _]. repeat split; assumption. Qed.
-Lemma CTX_gnp g mx : CTX g mx -> g_no_paren_suffix g = true.
+Lemma CTX_gcond g mx : CTX g mx -> gcond g = true.
 Proof. intros (H1 & _). apply andb_true_iff in H1. apply H1. Qed.
-Lemma CTX_intro g mx : ParserComplete2.CTX ts g mx -> g_no_paren_suffix g = true -> CTX g mx.
+Lemma CTX_gnp g mx : CTX g mx -> g_no_paren_suffix g = true.
+Proof. intros H. apply CTX_gcond in H. unfold gcond in H. apply andb_true_iff in H. apply H. Qed.
+Lemma CTX_gnts g mx : CTX g mx -> nts = true -> g_no_trailing_sep g = true.
+Proof.
+  intros H Hn. apply CTX_gcond in H. unfold gcond in H. apply andb_true_iff in H. destruct H as [_ H]. rewrite Hn, orb_false_r in H. exact H.
+Qed.
+Lemma CTX_intro g mx : ParserComplete2.CTX ts g mx -> gcond g = true -> CTX g mx.
 Proof. intros (H1 & H2 & H3 & H4) Hg. repeat split; try assumption. rewrite H1, Hg. reflexivity. Qed.
 Lemma CTXL_old l mx : CTXL l mx -> ParserComplete2.CTXL ts l mx.
 Proof. intros H. induction H as [|c l Hc _ IH]; constructor; [apply CTX_old, Hc | exact IH]. Qed.
-Lemma CTXL_intro l mx : ParserComplete2.CTXL ts l mx -> forallb g_no_paren_suffix l = true -> CTXL l mx.
+Lemma CTXL_intro l mx : ParserComplete2.CTXL ts l mx -> forallb gcond l = true -> CTXL l mx.
 Proof.
   intros H. induction H as [|c l Hc _ IH]; intros Hg; constructor; cbn [forallb] in Hg; apply andb_true_iff in Hg.
   - apply CTX_intro; [exact Hc | apply Hg].
@@ -258,17 +357,16 @@ Qed.
 
 Lemma CTX_node tag a b sh fs mx : CTX (Node tag a b sh fs) mx -> CTXL fs mx.
 Proof.
-  intros H. apply CTXL_intro; [eapply ParserComplete2.CTX_node, CTX_old, H|].
-  apply CTX_gnp in H. cbn [g_no_paren_suffix] in H. apply andb_true_iff in H. apply H.
+  intros H. apply CTXL_intro; [eapply ParserComplete2.CTX_node, CTX_old, H|]. eapply gcond_node, CTX_gcond, H.
 Qed.
 
 Lemma CTX_lst l mx : CTX (Lst l) mx -> CTXL l mx.
-Proof. intros H. apply CTXL_intro; [eapply ParserComplete2.CTX_lst, CTX_old, H | exact (CTX_gnp _ _ H)]. Qed.
+Proof. intros H. apply CTXL_intro; [eapply ParserComplete2.CTX_lst, CTX_old, H | exact (gcond_fields _ (CTX_gcond _ _ H))]. Qed.
 
 Lemma CTX_paren i j x mx : CTX (Paren i j x) mx -> CTX x mx /\ fence_ok mx i = true /\ fence_ok mx j = true.
 Proof.
   intros H. destruct (ParserComplete2.CTX_paren ts i j x mx (CTX_old _ _ H)) as (A & B & C).
-  split; [apply CTX_intro; [exact A | exact (CTX_gnp _ _ H)] | split; assumption].
+  split; [apply CTX_intro; [exact A | exact (CTX_gcond _ _ H)] | split; assumption].
 Qed.
 
 Lemma CTX_hid x mx : CTX (Hid x) mx -> CTX x mx.
@@ -307,6 +405,6 @@ End Dom.
 
 Ltac ctx_split H :=
   repeat match type of H with
-         | CTXL _ (_ :: _) _ =>
+         | CTXL _ _ (_ :: _) _ =>
              let H1 := fresh "HC" in apply CTXL_cons in H; destruct H as [H1 H]
          end.
